@@ -412,3 +412,76 @@ def rule_option_declaration(ctx, r, func_key, flag, want, why):
                  f"{flag} is declared with {', '.join(bad)}: {why}", f"{fn.module.relpath}:{opt.lineno}")
     if not ok:
         r.instances[-1]["from_witness"] = True
+
+
+# process-wide signal dispositions: the pool server runs inside the `gwf` process (cli.main -> `gwf workers` -> asyncio.run), so what any code on that path installs
+# holds for the pool.  (signal, disposition) pairs that break a property, with the reason.
+FATAL_DISPOSITIONS = {
+    ("SIGPIPE", "SIG_DFL"): ("C14", "with SIGPIPE at its default disposition a write to a connection whose client has gone away kills the whole process instead of raising "
+                                    "BrokenPipeError in that one handler: one vanished client takes the pool, its running tasks and every other client's connection down"),
+    ("SIGCHLD", "SIG_IGN"): ("C13", "with SIGCHLD ignored the kernel reaps children itself: waitpid() fails with ECHILD, asyncio reports exit status 255 for every task, so tasks "
+                                    "that exited 0 end as failed"),
+    ("SIGHUP", "SIG_DFL"): (None, ""),
+}
+
+
+def signal_calls(tree, canon):
+    """(call node, signal name, disposition name) for every signal.signal(SIGX, SIG_Y) in a module tree; canon(node) resolves a Name/Attribute to its dotted origin."""
+    import ast
+    out = []
+    for n in ast.walk(tree):
+        if isinstance(n, ast.Call) and isinstance(n.func, (ast.Name, ast.Attribute)) and (canon(n.func) or "") == "signal.signal" and len(n.args) >= 2:
+            names = []
+            for a in n.args[:2]:
+                c = canon(a) if isinstance(a, (ast.Name, ast.Attribute)) else None
+                names.append((c or ast.unparse(a)).rsplit(".", 1)[-1])
+            out.append((n, names[0], names[1]))
+    return out
+
+
+def rule_signal_dispositions(ctx, r, prop):
+    """No code of the package installs a process-wide signal disposition that defeats `prop` (the table above).  Expected count on a healthy tree: zero call sites,
+    so the matcher is exercised on a built-in positive example at every run."""
+    import ast
+    from ..index import loc
+    sample = ast.parse("import signal\nfrom signal import SIGPIPE as SP\nsignal.signal(SP, signal.SIG_DFL)\n")
+    imports = {"signal": "signal", "SP": "signal.SIGPIPE"}
+
+    def c0(node):
+        d = ast.unparse(node)
+        head, _, rest = d.partition(".")
+        return (imports.get(head, head) + ("." + rest if rest else ""))
+    got = signal_calls(sample, c0)
+    if [(g[1], g[2]) for g in got] != [("SIGPIPE", "SIG_DFL")]:
+        from ..loader import AnalysisError
+        raise AnalysisError("rule_signal_dispositions: the matcher does not recognise its own positive example")
+    n = 0
+    # the code that runs in the pool's process: module level of every module (plugins are imported by every command), cli.main, the workers command and the pool itself
+    from ..index import enclosing_function
+    reach = set()
+    for root in ("gwf.cli:main", "gwf.plugins.workers:workers", "gwf.backends.local:start_cluster", "gwf.backends.local:start_cluster_async", "gwf.backends.local:Server.start_server"):
+        try:
+            v_, _e, _u = ctx.resolver.reach(ctx.index.func(root))
+            reach |= {k[0] for k in v_}
+        except Exception:
+            reach.add(root)
+    by_node = {id(f.node): f for f in ctx.index.functions.values()}
+    for mod in ctx.repo.modules.values():
+        for call, sig, disp in signal_calls(mod.tree, lambda e, m=mod: ctx.index.canon(e, m)):
+            n += 1
+            p, why = FATAL_DISPOSITIONS.get((sig, disp), (None, ""))
+            con = f"{mod.relpath}::signal.signal({sig}, {disp})"
+            enc = enclosing_function(call)
+            outer = enc
+            while outer is not None and id(outer) not in by_node:
+                outer = enclosing_function(outer)
+            finfo = by_node.get(id(outer)) if outer is not None else None
+            # a nested function belongs to the function that defines it
+            on_path = enc is None or finfo is None or finfo.key in reach
+            if p == prop and not on_path:
+                r.ok(con, f"installed in {finfo.key}, which the pool's process never runs", loc(call, mod))
+            elif p == prop:
+                r.violation(con, f"`{ast.unparse(call)}` changes a process-wide signal disposition: {why}", loc(call, mod))
+            else:
+                r.ok(con, f"disposition {disp} for {sig} does not affect this property", loc(call, mod))
+    r.ok("src/gwf::signal-dispositions", f"{n} signal.signal call site(s) in the package, none installs a disposition that defeats the property (matcher checked on a positive example)", "src/gwf/cli.py:1")
